@@ -215,14 +215,19 @@ def check(s):
          necessary_for="the reward, flags and successor reported are those of the transition taken by THIS environment")
     # the gymnax adapters hand the same signals across the API boundary: `done` is terminal | truncated of the ONE Gym-style step taken,
     # the reward / observation / info are that step's, and the cached signals of GymnaxToLeraxEnv come out of the state they belong to
-    from .C13 import check_gymnax
+    from .C13 import check_adapters, check_gymnax
     check_gymnax(s, rule="C01.8")
+    # and the Gymnasium adapters: the flags of an adapted Gymnasium environment are the flags its step() returned, each in its own slot
+    check_adapters(s, rule="C01.8")
     # ---------------------------------------------------------------- C01.9 wrapper stacks: the signals step composes
     # step calls self.transition / reward / terminal / truncate / observation / initial; on a wrapper stack these are the wrapper's
     # methods, so "the flags of exactly the transition taken" needs every wrapper to hand the inner signal through (TimeLimit: OR-ed
     # with its own count, which restarts at 0 and advances by one).
-    from .C13 import check_delegation, check_timelimit
+    from .C13 import check_delegation, check_rescale, check_timelimit
     check_delegation(s, "C01.9", ["initial", "transition", "observation", "reward", "terminal", "truncate"])
     check_timelimit(s, "C01.9")
+    # "with only its declared transformation": the maps the clip / rescale wrappers apply to the action fed in and to the reward / observation
+    # reported are the declared ones, built from the constructor's own bounds
+    check_rescale(s, "C01.9")
     for r_, n_ in (("C01.1", 3), ("C01.2", 2), ("C01.3", 2), ("C01.4", 2), ("C01.5", 1), ("C01.6", 2), ("C01.7", 11), ("C01.8", 6), ("C01.9", 70)):
         s.floor(r_, n_)
